@@ -23,6 +23,10 @@ type graphNode struct {
 	neighbours    []vectorstore.VectorStorePoint
 	neighLoadMu   sync.Mutex
 	isNeighLoaded atomic.Bool
+	// Mirrors len(edges). The cache manager asks for the size of cached nodes
+	// while other goroutines of a write are changing their edges, it cannot
+	// take the edges lock (lock order) and must not read the slice itself.
+	edgeCount atomic.Int64
 }
 
 // ---------------------------
@@ -56,6 +60,7 @@ func (g *graphNode) LoadNeighbours(vstore vectorstore.VectorStore) error {
 
 func (g *graphNode) ClearNeighbours() {
 	g.edges = g.edges[:0]
+	g.edgeCount.Store(0)
 	g.neighbours = g.neighbours[:0]
 	g.isDirty = true
 	// When clearing, there won't be any neighbours to load, so they are deemed
@@ -65,6 +70,7 @@ func (g *graphNode) ClearNeighbours() {
 
 func (g *graphNode) AddNeighbour(neighbour vectorstore.VectorStorePoint) int {
 	g.edges = append(g.edges, neighbour.Id())
+	g.edgeCount.Store(int64(len(g.edges)))
 	g.neighbours = append(g.neighbours, neighbour)
 	g.isDirty = true
 	return len(g.edges)
@@ -98,7 +104,7 @@ func (g *graphNode) IdFromKey(key []byte) (uint64, bool) {
 }
 
 func (g *graphNode) SizeInMemory() int64 {
-	return int64(len(g.edges)*8) + 16
+	return g.edgeCount.Load()*8 + 16
 }
 
 func (g *graphNode) CheckAndClearDirty() bool {
@@ -114,6 +120,7 @@ func (g *graphNode) ReadFrom(id uint64, bucket diskstore.Bucket) (node *graphNod
 	edgeBytes := bucket.Get(conversion.NodeKey(id, 'e'))
 	if edgeBytes != nil {
 		node.edges = conversion.BytesToEdgeList(edgeBytes)
+		node.edgeCount.Store(int64(len(node.edges)))
 	} else {
 		err = cache.ErrNotFound
 	}
